@@ -48,6 +48,8 @@ struct DocumentBuilder {
     current_node_id: NodeId,
     name_id_builder: NameIdBuilder,
     element_builder: Option<ElementBuilder>,
+    // prefix and local name, as written, of the elements that are open
+    open_names: Vec<(String, String)>,
     seen_ids: HashSet<String>,
     id_nodes: HashMap<String, NodeId>,
     xml_id_id: NameId,
@@ -64,6 +66,7 @@ impl DocumentBuilder {
             current_node_id: document,
             name_id_builder,
             element_builder: None,
+            open_names: Vec::new(),
             seen_ids: HashSet::new(),
             id_nodes: HashMap::new(),
             xml_id_id: xot.xml_id_id,
@@ -161,6 +164,10 @@ impl DocumentBuilder {
         let element_value = Value::Element(Element { name_id });
         let node_id = self.add(element_value, xot);
         self.current_node_id = node_id;
+        self.open_names.push((
+            element_builder.prefix.clone(),
+            element_builder.name.clone(),
+        ));
 
         // add namespace nodes
         for (prefix_id, namespace_id) in &element_builder.namespaces {
@@ -276,6 +283,7 @@ impl DocumentBuilder {
         let current_node = xot.arena.get(self.current_node_id).unwrap();
         if matches!(current_node.get(), Value::Element(_)) {
             self.name_id_builder.pop();
+            self.open_names.pop();
         }
         let closed_node_id = self.current_node_id;
         self.current_node_id = current_node.parent().expect("Cannot close document node");
@@ -293,7 +301,16 @@ impl DocumentBuilder {
             .element_name_id(&prefix, &name, prefix.into(), xot)?;
         let current_node = xot.arena.get(self.current_node_id).unwrap();
         if let Value::Element(element) = current_node.get() {
-            if element.name_id != name_id {
+            // the name in the end tag has to match the start tag as written,
+            // the same expanded name through another prefix is not enough
+            let same_as_written = self
+                .open_names
+                .last()
+                .map(|(open_prefix, open_name)| {
+                    open_prefix == prefix.as_str() && open_name == name.as_str()
+                })
+                .unwrap_or(false);
+            if element.name_id != name_id || !same_as_written {
                 return Err(ParseError::InvalidCloseTag(
                     prefix.to_string(),
                     name.to_string(),
@@ -301,6 +318,7 @@ impl DocumentBuilder {
                 ));
             }
             self.name_id_builder.pop();
+            self.open_names.pop();
         } else {
             // no element is open: an end tag without a matching start tag
             return Err(ParseError::InvalidCloseTag(
